@@ -227,13 +227,28 @@ def scaleSq (inverse : Bool) (nm : Norm) (N : Nat) : Nat × Nat :=
   | .forward, false => (1, N * N)
   | .forward, true => (1, 1)
 
+/-- **the backend the driver runs**: shifts are the model's n-D `fftshift` / `ifftshift` over `dims`,
+the transform is the per-axis lifting (`Tensor.alongAxis`) of a 1-D transform `F inverse norm axis`,
+applied along every axis of `dims` in turn -/
+def tensorBackend {α} [Inhabited α] (F : Bool → Norm → Nat → List α → List α) (dims : List Nat) :
+    Backend (Tensor α) where
+  ishift := fun t => Shift.ifftshift t dims
+  fshift := fun t => Shift.fftshift t dims
+  transform := fun inv nm t => applyAxes (fun d t => t.alongAxis d (F inv nm d)) dims t
+  viewComplex := id
+  viewReal := id
+
+/-- the symbolic 1-D transform (the scale is tracked separately, so the norm is ignored here) -/
+def symF : Bool → Norm → Nat → List Sym → List Sym := fun inv _ d => symDft inv d
+
+/-- `tensorBackend symF` on the symbolic tensor + exact bookkeeping of the scale factor -/
 def symBackend (dims : List Nat) : Backend SymT where
-  ishift := fun x => { x with t := Shift.ifftshift x.t dims }
-  fshift := fun x => { x with t := Shift.fftshift x.t dims }
+  ishift := fun x => { x with t := (tensorBackend symF dims).ishift x.t }
+  fshift := fun x => { x with t := (tensorBackend symF dims).fshift x.t }
   transform := fun inv nm x =>
     let N := prod (dims.map fun d => x.t.shape.getD d 1)
     let (a, b) := scaleSq inv nm N
-    { t := applyAxes (fun d t => t.alongAxis d (symDft inv d)) dims x.t, num := x.num * a, den := x.den * b }
+    { t := (tensorBackend symF dims).transform inv nm x.t, num := x.num * a, den := x.den * b }
   viewComplex := id
   viewReal := id
 
